@@ -328,13 +328,21 @@ def replay_part(ctx, rng, focus):
     # other parameter variants of every function (quick: float64/C; thorough: four configurations)
     vsel = (("float64", "C"),) if ctx.tier != "thorough" else (("float32", "C"), ("float64", "F"), ("int16", "strided"), ("float64", "C"))
     for c in allcfgs:
-        if (c["dtype"], c["layout"]) in vsel and c["supported"]:
-            if ctx.tier != "thorough" and c["backend"] != "numpy":
+        key = (c["dtype"], c["layout"])
+        quick = ctx.tier != "thorough"
+        # the do-nothing / identity corner of a function (passes=0, 1x1 kernel, identity bins, constant raster, nothing to
+        # trim, max_distance=0, start == goal, 3x3 raster ...) also on the strided float64 view: astype / asarray are no-ops there
+        corner_only = quick and c["backend"] == "numpy" and key == ("float64", "strided")
+        if (key in vsel or corner_only) and c["supported"]:
+            if quick and c["backend"] != "numpy":
                 continue
             for vi in range(1, meta[c["f"]]["nvariants"]):
                 if c["backend"] not in meta[c["f"]]["variant_backends"].get(vi, alias_api.BACKENDS):
                     continue
-                if ctx.tier != "thorough" and c["f"] in ("proximity", "allocation", "direction") and vi not in (1, 3):
+                if corner_only and vi not in meta[c["f"]]["corners"]:
+                    continue
+                if quick and c["f"] in ("proximity", "allocation", "direction") and vi not in (1, 3) \
+                        and vi not in meta[c["f"]]["corners"]:
                     continue            # every call of this family re-JITs a closure (0.8 s)
                 jobs.append({"sid": len(jobs), "tag": "variant", "calls": [
                     {"f": c["f"], "variant": vi, "args": None, "dtype": c["dtype"], "layout": c["layout"],
